@@ -78,6 +78,10 @@ def recorded_amount_c05(col, gcode, paths, I):
     declare(col)
     from .rules_c04 import recorded_amount
     recorded_amount(col, gcode, paths, I, 'C05.R5')
+    from . import rules_c07
+    col.rule('C07.R1', 'C07: every synthesised command is one G/M code followed by distinct single-letter words', floor=4)
+    col.rule('C07.R2', 'C07: every numeric word of the generated retract / recover commands is rendered by an exponent-free formatter', floor=8)
+    rules_c07.path_rules(col, gcode, paths, I, own=False)
 
 
 def run(ctx, tier):
